@@ -8,7 +8,7 @@ store `Model/Topics.lean`; specification: `Spec/Broker.lean` (`subCode`).  All
 theorems quantify over every state satisfying the representation invariant
 `Inv` (which `step` preserves from the initial state: `C07_inv_step`).
 -/
-import Mqtt.Proofs.BrokerFanoutHeld
+import Mqtt.Proofs.BrokerFanoutSub
 
 set_option linter.unusedSimpArgs false
 
@@ -227,6 +227,26 @@ theorem C07_held_refines_partial (b : B) (hinv : Inv b) (c id : Nat) (hl : b.ali
       simp only [Mqtt.Spec.Broker.step1, hcn]
       exact ⟨(hp.trans (entriesAfterUnsub_perm c topics _ _ hh.perm)).trans (by rw [e1]),
         fun h hm => hh.valid h (List.mem_filter.mp hm).1⟩
+
+/-- The same for the in-process API (`Server.Subscribe` / `Server.Unsubscribe`
+of a callback), and a publish of any kind leaves the subscription trie as it
+is - so `HeldInv` is maintained along every history of these events. -/
+theorem C07_held_refines_srv_partial (b : B) (hinv : Inv b) (cb : Nat) (f : Bytes) (hg : good f = true)
+    (s : Mqtt.Spec.Broker.S) (hh : HeldInv b.topics.sroot s.held) :
+    (∀ q, HeldInv (step b (.srvSub cb f q)).1.topics.sroot (Mqtt.Spec.Broker.step1 s (.srvSub cb f q)).1.held) ∧
+    HeldInv (step b (.srvUnsub cb f)).1.topics.sroot (Mqtt.Spec.Broker.step1 s (.srvUnsub cb f)).1.held ∧
+    (∀ m : Msg, (onPublish b m).1.topics.sroot = b.topics.sroot) := by
+  refine ⟨?_, ?_, ?_⟩
+  · intro q
+    have := srvSub_held b hinv cb f q hg s.held hh
+    simp only [step, Mqtt.Spec.Broker.step1]
+    split
+    · rename_i hc; simp only [hc, ↓reduceIte] at this; exact this
+    · rename_i hc; simp only [hc, ↓reduceIte] at this; exact this
+  · exact srvUnsub_held b hinv cb f hg s.held hh
+  · intro m
+    rw [onPublish_topics]
+    exact (retainStep_frame b m).1
 
 /-- the full statement of the SUBSCRIBE half: all filters -/
 def C07_held_refines_full : Prop :=
